@@ -703,9 +703,9 @@ Lemma check_conf_spec le txids h : forall snap t comp comp' t',
   ua t' = ua t /\
   exists added, comp' = comp ++ added /\
     (forall u, In u added -> exists k, In k snap /\ trk_uuid k = u /\ memN (t_penalty k) txids = false /\
-                                       t_conf k = true /\ u32_sub h (t_height k) = Some IRR) /\
+                                       t_conf k = true /\ h - t_height k = IRR) /\
     (forall k, In k snap -> memN (t_penalty k) txids = false -> mem_uuid (trk_uuid k) (reorged t) = false ->
-               t_conf k = true -> u32_sub h (t_height k) = Some IRR -> In (trk_uuid k) added) /\
+               t_conf k = true -> h - t_height k = IRR -> In (trk_uuid k) added) /\
     (NoDup (map trk_uuid snap) -> NoDup added).
 Proof.
   induction snap as [|k snap IH]; intros t comp comp' t'; cbn [check_conf_loop].
@@ -731,9 +731,8 @@ Proof.
         * intros u Hu. destruct (H1 u Hu) as [k' [Hk' Hr]]. exists k'. split; [right; exact Hk'|exact Hr].
         * intros k' [Hk'|Hk'] Hp Hr Hcf Hh; [subst k'; congruence|]. apply H2; assumption.
         * intros Hnd. cbn [map] in Hnd. apply NoDup_cons_iff in Hnd. apply H3. tauto. }
-      destruct (u32_sub h (t_height k)) as [c|] eqn:Es; [|discriminate].
-      fold IRR. destruct (N.eqb c IRR) eqn:Ei.
-      * apply N.eqb_eq in Ei. subst c.
+      fold IRR. destruct (N.eqb (h - t_height k) IRR) eqn:Ei.
+      * apply N.eqb_eq in Ei.
         intros H. apply IH in H. destruct H as [Hua [added [Hc [H1 [H2 H3]]]]].
         split; [exact Hua|]. exists (trk_uuid k :: added). split; [rewrite Hc, <- app_assoc; reflexivity|]. split; [|split].
         -- intros u [Hu|Hu].
@@ -746,7 +745,7 @@ Proof.
         split; [exact Hua|]. exists added. split; [exact Hc|]. split; [|split].
         -- intros u Hu. destruct (H1 u Hu) as [k' [Hk' Hr]]. exists k'. split; [right; exact Hk'|exact Hr].
         -- intros k' [Hk'|Hk'] Hp Hr Hcf Hh; [subst k'|apply H2; assumption].
-           rewrite Es in Hh. inversion Hh. subst c. rewrite N.eqb_refl in Ei. discriminate.
+           rewrite Hh, N.eqb_refl in Ei. discriminate.
         -- intros Hnd. cbn [map] in Hnd. apply NoDup_cons_iff in Hnd. apply H3. tauto.
 Qed.
 
@@ -829,9 +828,9 @@ Lemma r_block_spec le sc t2 hash txs h t3 :
   exists completed rej,
     NoDup completed /\
     (forall u, In u completed -> exists k, In k (db_trks t2) /\ trk_uuid k = u /\ memN (t_penalty k) txs = false /\
-                                           t_conf k = true /\ u32_sub h (t_height k) = Some IRR) /\
+                                           t_conf k = true /\ h - t_height k = IRR) /\
     (forall k, In k (db_trks t2) -> memN (t_penalty k) txs = false -> mem_uuid (trk_uuid k) (reorged t2) = false ->
-               t_conf k = true -> u32_sub h (t_height k) = Some IRR -> In (trk_uuid k) completed) /\
+               t_conf k = true -> h - t_height k = IRR -> In (trk_uuid k) completed) /\
     db_apps t3 = del rej (del completed (db_apps t2)) /\
     forall v, amem (db_users t3) v = amem (db_users t2) v /\
               avail t3 v = avail t2 v + ssum (filter (fun a => ofu v a && mem_uuid (app_uuid a) completed) (db_apps t2)).
@@ -1064,13 +1063,11 @@ Definition connect_side (t : tower) (txs : list N) : Prop :=
 
 Lemma completing_iff h txs k :
   completing h txs k = true <->
-  t_conf k = true /\ u32_sub h (t_height k) = Some IRR /\ memN (t_penalty k) txs = false.
+  t_conf k = true /\ h - t_height k = IRR /\ memN (t_penalty k) txs = false.
 Proof.
-  unfold completing, u32_sub, IRR, Consts.IRREVOCABLY_RESOLVED. rewrite !andb_true_iff, negb_true_iff, Z.eqb_eq. split.
-  - intros [[Hc Hh] Hp]. repeat split; try assumption.
-    destruct (N.leb (t_height k) h) eqn:El; [apply N.leb_le in El; f_equal; lia|apply N.leb_gt in El; lia].
-  - intros [Hc [Hh Hp]]. repeat split; try assumption.
-    destruct (N.leb (t_height k) h) eqn:El; [|discriminate]. apply N.leb_le in El. inversion Hh. lia.
+  unfold completing, IRR, Consts.IRREVOCABLY_RESOLVED. rewrite !andb_true_iff, negb_true_iff, Z.eqb_eq. split.
+  - intros [[Hc Hh] Hp]. repeat split; try assumption. lia.
+  - intros [Hc [Hh Hp]]. repeat split; try assumption. lia.
 Qed.
 
 Lemma NoDup_map_inj {A B} (f : A -> B) l x y : NoDup (map f l) -> In x l -> In y l -> f x = f y -> x = y.
@@ -2154,8 +2151,7 @@ Proof.
   apply mem_uuid_In in Em. destruct (Rr _ Em) as [k' [Hk' [Hku Hkh]]].
   pose proof (NoDup_map_inj trk_uuid (db_trks t) k' k (inv_trks_nodup t HI) Hk' Hk Hku) as He. subst k'.
   apply completing_iff in Hc. destruct Hc as [_ [Hh _]].
-  unfold u32_sub, IRR, Consts.IRREVOCABLY_RESOLVED in Hh.
-  destruct (N.leb (t_height k) (gk_height t + 1)); [|discriminate]. inversion Hh. lia.
+  unfold IRR, Consts.IRREVOCABLY_RESOLVED in Hh. lia.
 Qed.
 
 (* the environment's side of the bargain, step by step (see step_side; the clauses of connect_side that
